@@ -104,6 +104,9 @@ def float_op(proc: str, x: float, p: Dict[str, Any], ctx: Dict[str, Any], log: l
         log.append(("VCtxWrite", {}))
         ctx["a"] = x + 0.25
         return x + 1.0
+    if proc == "VSleep":
+        log.append(("VSleep", {"seconds": p["seconds"]}))
+        return x
     if proc == "VItemSum":
         total = sum(float(v) for v in p["items"]) if p["items"] is not None else 0.0
         log.append(("VItemSum", {"total": total}))
